@@ -9,6 +9,9 @@ From Grex Require Import Base.Str Base.Ranges Model.Config Model.Cluster Model.D
   Model.Pipeline.
 From Grex Require Import Proofs.Lang Proofs.Spec Proofs.EngineDen Proofs.Construction
   Proofs.PropsGlue.
+From Grex Require Import Engine.Syntax Engine.Parse Engine.Sem.
+From Grex Require Import Proofs.PrintParseNum Proofs.PrintParseDefs Proofs.PrintParseXTok
+  Proofs.PropsGlueE2E.
 From Grex Require Import Props.C09.
 From GrexGen Require Import GrexTables OracleTables.
 
@@ -47,8 +50,76 @@ Proof. exact C09_token_spec. Qed.
 Theorem C03_cls_engine : forall l x, cls_engine l x <-> tok_accepts [92%N; l] x = true.
 Proof. exact cls_engine_tok. Qed.
 
+(* END TO END, at the string level (notions: Props/C01.v (f)): the string returned by a
+   case-sensitive build parses, and on haystacks of Unicode scalar values the parsed pattern
+   matches exactly the specification language *)
+Theorem C03_build_classes : forall isd is_ws c db sc ws s,
+  f_ci c = false ->
+  ws <> [] ->
+  Forall (Forall scalar) ws ->
+  oracle_ok db (normalise c db ws) ->
+  printable c -> f_verbose c = false -> ws_ok is_ws ->
+  no_merge (grapheme_clusters c db (normalise c db ws)) = true ->
+  build isd c db sc ws = Some s ->
+  exists fl r, parse is_ws s = Some (fl, r) /\ fl_i fl = false /\ fl_x fl = false
+    /\ (forall u, Forall scalar u -> (u <> [] \/ K4 (normalise c db ws) = false) ->
+          (L_rast lit_cs cls_engine r u <-> Spec lit_cs cls_engine c db ws u))
+    /\ (L_rast lit_cs cls_engine r [] -> Spec lit_cs cls_engine c db ws []).
+Proof. exact build_classes_cs_nv. Qed.
+
+Theorem C03_build_classes_verbose : forall isd is_ws c db sc ws s,
+  f_ci c = false ->
+  ws <> [] ->
+  Forall (Forall scalar) ws ->
+  oracle_ok db (normalise c db ws) ->
+  printable c -> f_verbose c = true -> ws_x is_ws ->
+  no_merge (grapheme_clusters c db (normalise c db ws)) = true ->
+  build isd c db sc ws = Some s ->
+  exists fl r, parse is_ws s = Some (fl, r) /\ fl_i fl = false /\ fl_x fl = true
+    /\ (forall u, Forall scalar u -> (u <> [] \/ K4 (normalise c db ws) = false) ->
+          (L_rast lit_cs cls_engine r u <-> Spec lit_cs cls_engine c db ws u))
+    /\ (L_rast lit_cs cls_engine r [] -> Spec lit_cs cls_engine c db ws []).
+Proof. exact build_classes_cs_v. Qed.
+
+(* the same for ANY denotation of literals and classes, over all haystacks (surrogate code
+   points included), provided a surrogate pattern character denotes nothing *)
+Theorem C03_build_parse_lang : forall (lit_den cls_den : cp -> cp -> Prop) isd is_ws c db sc ws s,
+  ws <> [] ->
+  Forall (Forall scalar) ws ->
+  (forall s0, In s0 ws -> Forall scalar (lower' db s0)) ->
+  oracle_ok db (normalise c db ws) ->
+  printable c -> f_verbose c = false -> ws_ok is_ws ->
+  (forall c0 x, surrogate c0 -> ~ lit_den c0 x) ->
+  no_merge (grapheme_clusters c db (normalise c db ws)) = true ->
+  build isd c db sc ws = Some s ->
+  exists fl r, parse is_ws s = Some (fl, r) /\ fl_i fl = f_ci c /\ fl_x fl = false
+    /\ (forall u, (u <> [] \/ K4 (normalise c db ws) = false) ->
+          (L_rast lit_den cls_den r u <-> Spec lit_den cls_den c db ws u))
+    /\ (L_rast lit_den cls_den r [] -> Spec lit_den cls_den c db ws []).
+Proof. exact EndToEnd.build_parse_lang. Qed.
+
+Theorem C03_build_parse_lang_verbose :
+  forall (lit_den cls_den : cp -> cp -> Prop) isd is_ws c db sc ws s,
+  ws <> [] ->
+  Forall (Forall scalar) ws ->
+  (forall s0, In s0 ws -> Forall scalar (lower' db s0)) ->
+  oracle_ok db (normalise c db ws) ->
+  printable c -> f_verbose c = true -> ws_x is_ws ->
+  (forall c0 x, surrogate c0 -> ~ lit_den c0 x) ->
+  no_merge (grapheme_clusters c db (normalise c db ws)) = true ->
+  build isd c db sc ws = Some s ->
+  exists fl r, parse is_ws s = Some (fl, r) /\ fl_i fl = f_ci c /\ fl_x fl = true
+    /\ (forall u, (u <> [] \/ K4 (normalise c db ws) = false) ->
+          (L_rast lit_den cls_den r u <-> Spec lit_den cls_den c db ws u))
+    /\ (L_rast lit_den cls_den r [] -> Spec lit_den cls_den c db ws []).
+Proof. exact EndToEndVerbose.build_parse_lang_verbose. Qed.
+
 Print Assumptions C03_classes.
 Print Assumptions C03_spec_unfold.
 Print Assumptions C03_token_language.
 Print Assumptions C03_token_spec.
 Print Assumptions C03_cls_engine.
+Print Assumptions C03_build_classes.
+Print Assumptions C03_build_classes_verbose.
+Print Assumptions C03_build_parse_lang.
+Print Assumptions C03_build_parse_lang_verbose.
